@@ -22,7 +22,9 @@ def query_strategy(max_points=64):
         'layout': st.sampled_from(['1d', 'scalar', 'empty', '1d', 'scalar',
                                    '2d', '3d', 'bcast', 'len1', 'fortran',
                                    'transposed', 'strided']),
-        'dtype': st.sampled_from(['float', 'float', 'float', 'int']),
+        'dtype': st.sampled_from(['float', 'float', 'float', 'float', 'int',
+                                  'int', 'int32', 'int16', 'uint8', 'uint16',
+                                  'float32']),
         'dense': st.booleans(),
         'pts': st.lists(pt, min_size=6, max_size=max_points),
     })
@@ -118,6 +120,14 @@ def materialise(spec, q):
     if q['dtype'] == 'int':
         x = np.round(x).astype(np.int64)
         y = np.round(y).astype(np.int64)
+    elif q['dtype'] == 'float32':
+        x, y = x.astype(np.float32), y.astype(np.float32)
+    elif q['dtype'] != 'float':
+        # narrow and unsigned integer arrays (indices of small images):
+        # the positions are moved into the range of the type
+        info = np.iinfo(q['dtype'])
+        x = np.clip(np.round(x), info.min, info.max).astype(q['dtype'])
+        y = np.clip(np.round(y), info.min, info.max).astype(q['dtype'])
     lay = q['layout']
     n = len(x)
     if lay == 'scalar':
